@@ -249,7 +249,7 @@ def _tree(task):
             acc.add(check_distrib(spec, ha, hb))
             acc.n("distrib_pairs")
             acc.n("transitions", 10)
-        for ha, hb in itertools.product(small[:6], small[:6]):
+        for ha, hb in itertools.product(small[:4], small[:4]):
             acc.add(check_built(spec, ha, hb))
             acc.n("built_pairs")
             acc.n("transitions", 4 * len(FACTORS))
